@@ -479,7 +479,7 @@ func schedScenarios() []scenario {
 			return fmt.Sprintf("%s %x", t, g)
 		}}
 	}
-	return []scenario{
+	scs := []scenario{
 		{"Text(prec)||Text(prec)", mk(func(x, y, w *Dec) []thread { return []thread{textp(x), textp(w)} }), thr},
 		{"Text(prec)||Sprintf", mk(func(x, y, w *Dec) []thread { return []thread{textp(y), sprintf(y)} }), thr},
 		{"Sprintf||Quo", mk(func(x, y, w *Dec) []thread { return []thread{sprintf(x), quo(x, y, 12, ToNearestEven)} }), thr},
@@ -501,6 +501,24 @@ func schedScenarios() []scenario {
 			return []thread{mul(x, x, 100), mul(x, y, 60), quo(w, x, 30, ToZero)}
 		}), thr},
 	}
+	// every non-arithmetic operand-taking operation against itself (two goroutines inside the same
+	// function at once: a function-local cache or scratch variable hoisted to package scope shows here)
+	for _, op := range roOps() {
+		switch op.name {
+		case "Add", "Sub", "Mul", "Quo", "Mul(x,x)", "FMA", "Sqrt":
+			continue // covered by the scenarios above
+		}
+		op := op
+		scs = append(scs, scenario{op.name + "||" + op.name, mk(func(x, y, w *Dec) []thread {
+			a1 := []*Dec{x, y, w}[:op.arity]
+			a2 := []*Dec{w, x, y}[:op.arity]
+			return []thread{
+				{op.name, func() string { return op.f(fresh(30, ToNearestEven), a1) }},
+				{op.name + "'", func() string { return op.f(fresh(12, ToZero), a2) }},
+			}
+		}), thr})
+	}
+	return scs
 }
 
 func schedLayers(tier string) []Layer {
@@ -532,7 +550,7 @@ func schedLayers(tier string) []Layer {
 	return []Layer{{
 		Name:   "Z1-schedules",
 		Units:  len(units),
-		Bounds: "16 scenarios of 2–3 goroutines, each one operation with its own receiver on shared 3–5-word operands (thresholds 2/1/4 so that Karatsuba, squaring and long division use pooled scratch buffers); level A: scheduling points before and after every pool Get/Put, all interleavings for 2 threads (preemption bound 6; 3 threads: 3) × pool-answer deviations <= 2; level B: additionally a point before every arithmetic kernel call, preemption bound 2 (quick) / 3 (thorough) for 2 and 3 threads, pool deviations <= 1; adversarial pool (garbage on Get, poison on Put, ownership tracking); oracle: each thread's result == its sequential result, operands unchanged, no panic, pool protocol respected",
+		Bounds: "37 scenarios of 2–3 goroutines (16 hand-written mixes + every non-arithmetic operand-taking operation against itself), each one operation with its own receiver on shared 3–5-word operands (thresholds 2/1/4 so that Karatsuba, squaring and long division use pooled scratch buffers); level A: scheduling points before and after every pool Get/Put, all interleavings for 2 threads (preemption bound 6; 3 threads: 3) × pool-answer deviations <= 2; level B: additionally a point before every arithmetic kernel call, preemption bound 2 (quick) / 3 (thorough) for 2 and 3 threads, pool deviations <= 1; adversarial pool (garbage on Get, poison on Put, ownership tracking); oracle: each thread's result == its sequential result, operands unchanged, no panic, pool protocol respected",
 		Run: func(c *Ctx, u int) {
 			if !poolSeamsPresent() {
 				fmt.Fprintln(os.Stderr, "HARNESS-ERROR: pool seams not present in this build (overlay missing)")
@@ -547,8 +565,13 @@ func schedLayers(tier string) []Layer {
 				}
 				_ = threads
 				if kernelPointsSeen(sc) == 0 {
-					fmt.Fprintln(os.Stderr, "HARNESS-ERROR: no kernel scheduling points seen (build without -tags decimal_pure_go / overlay --points)")
-					os.Exit(2)
+					// the canary scenario (long division and FMA) must show kernel points, otherwise the build lacks them
+					if scs[5].name != "FMA||Quo" || kernelPointsSeen(&scs[5]) == 0 {
+						fmt.Fprintln(os.Stderr, "HARNESS-ERROR: no kernel scheduling points seen (build without -tags decimal_pure_go / overlay --points)")
+						os.Exit(2)
+					}
+					c.Count("level_B_units_without_kernel_calls", 1)
+					return // this scenario makes no kernel calls: level B coincides with level A
 				}
 				exploreScenario(c, sc, true, pb, 1, units[u].shard, units[u].nshards)
 			} else {
@@ -579,7 +602,7 @@ func racePass(args []string) int {
 	scs := schedScenarios()
 	for _, procs := range []int{2, 16} {
 		runtime.GOMAXPROCS(procs)
-		for round := 0; round < 30; round++ {
+		for round := 0; round < 20; round++ {
 			for si := range scs {
 				sc := &scs[si]
 				ok, obs, oks := decimal.VerifThresholds()
@@ -615,7 +638,7 @@ func racePass(args []string) int {
 			}
 		}
 	}
-	fmt.Println("racepass: completed", len(scs), "scenarios x 30 rounds x GOMAXPROCS {2,16}")
+	fmt.Println("racepass: completed", len(scs), "scenarios x 20 rounds x GOMAXPROCS {2,16}")
 	return 0
 }
 
